@@ -1,6 +1,7 @@
 """C03 - any mutation history leaves exactly the abstract graph observable (GraphStore.tla)."""
 import json, os
 import storecmp
+import srvroute
 from vlib import Inconclusive
 
 
@@ -129,6 +130,9 @@ def run(ctx):
     if others:
         ctx.notes.append("histories also replayed on %s (%d each)" % (", ".join(others), len(sub)))
     nsteps += index_part(ctx, tbl)
+    # the same clauses at the server boundary: two drivers, routing table, configured routes, schema graphs
+    rsteps, rhists = srvroute.run(ctx)
+    nsteps += rsteps
     for h in hs[:: max(1, len(hs) // 4)]:
         ctx.sample([x["call"] for x in h])
     ctx.cov.update(evaluations=nsteps, distinct_nontrivial=len(hs), traces_validated_against_impl=len(hs),
@@ -136,6 +140,9 @@ def run(ctx):
                         "after every call the complete observation (listings, lookups, adjacency in both directions x 4 label filters, "
                         "label listings, label index, timestamps of every graph) is compared with Obs of the abstract state; "
                         "distinct = distinct call sequences" % (2 if ctx.tier == "quick" else 3),
-                   observation_table_states=len(tbl))
-    ctx.assumptions += ["re-creating an existing graph, batches mixing valid and invalid elements, and the result code of deleting something absent are left open",
+                   observation_table_states=len(tbl), server_routing_histories=rhists)
+    ctx.assumptions += ["ServerRouting.tla: what the replay on a server with two drivers shows about the schema graphs (<g>__schema__) and the schema cache "
+                        "is compared with the model but reported as MODEL-DRIFT only (no listed property speaks about them); the named deviations "
+                        "CascadeWrongDriver and StaleSchemaCache are modelled as the code behaves",
+                        "re-creating an existing graph, batches mixing valid and invalid elements, and the result code of deleting something absent are left open",
                         "a timestamp may change on a successful call that changes nothing (e.g. delete of an absent element); it must change when the graph changed and must not change on failed calls or calls to another graph"]
